@@ -1,0 +1,29 @@
+//go:build !verif
+
+package parser
+
+func verifPoint(*lexer, int)    {}
+func verifPointH(*heredoc, int) {}
+func verifNest(*lexer, *lexer)  {}
+
+const (
+	EvStart = iota
+	EvExit
+	EvRecvBefore
+	EvRecvAfter
+	EvSendBefore
+	EvSendAfter
+	EvBail
+	EvErrWrite
+	EvRead
+	EvHdInc
+	EvHdPush
+	EvHdPopWait
+	EvHdPopWake
+	EvHdPopGot
+	EvSubst
+	EvNestedParseExit
+	EvJoinBefore
+	EvParseExit
+	EvNest
+)
